@@ -155,7 +155,7 @@ def oracle_files(ck, rng):
                      "nul": [None if j % 2 else j for j in range(n)]}
             m = Molecules(pos, rot, features=feats)
             for fmt in ("df", "parquet", "pq-to_file", "csv", "csv-to_file"):
-                prec = int(rng.integers(3, 8))
+                prec = int(rng.integers(3, 12))          # the requested number of decimals, whatever it is
                 try:
                     if fmt == "df":
                         back = Molecules.from_dataframe(m.to_dataframe())
